@@ -23,6 +23,7 @@ CONSTANTS
   DumpMod = 1
   NRepl = 17
   RichOnly = FALSE
+  NeedStruct = FALSE
   MaxRich <- Unlimited
   PKinds <- KCmt
   MaxEdits = 5
